@@ -26,6 +26,27 @@ def _canary(rng):
     return spec
 
 
+def _ctx_motif(rng):
+    """One or two tasks holding 1-3 contexts across several flushes, with pause/resume faults on
+    more than one of them (double faults: a resume failure followed by a pause failure while the
+    failed task's generator is closed, ...)."""
+    nctx = rng.randint(1, 3)
+    nitems = rng.randint(1, 3)
+    ys = [["y", ["t", [["item", rng.randint(0, 2), rng.randint(0, 5)] for _ in range(rng.randint(1, 2))]]] for _ in range(nitems)]
+    body = ys
+    for i in range(nctx):
+        body = [["with", rng.choice([["ctx"], ["ctx"], ["sv", 0, i + 1], ["attr", i + 1]]), body]]
+    templates = [{"kind": "fn", "steps": body}]
+    if rng.random() < 0.5:
+        templates.insert(0, {"kind": "fn", "steps": [["try", [["y", ["call", 1, []]]], "all", [["y", ["item", 0, 1]]]]]})
+    faults = {"items": {}, "flushes": {}, "ctx": {}}
+    for i in range(1, nctx + 1):
+        if rng.random() < 0.7:
+            faults["ctx"]["#%d" % i] = [rng.choice(["resume", "pause"]), rng.randint(1, 4)]
+    return {"templates": templates, "root": {"tmpl": 0, "conv": rng.choice(["call", "value", "wrapped"])}, "kinds": 3,
+            "svs": 2, "yield_only": True, "reentry": False, "faults": faults, "prio": gen.gen_prio(rng, 3)}
+
+
 class C08(ProgProp):
     id = "C08"
     report = ("C08",)
@@ -43,7 +64,10 @@ class C08(ProgProp):
                 cfg["p_sync"] = 0.0
             spec = gen.gen_program(rng, cfg)
             f = spec["faults"]
-            if rng.random() < 0.35:
+            if rng.random() < 0.2:
+                spec = _ctx_motif(rng)
+                f = spec["faults"]
+            elif rng.random() < 0.35:
                 for _ in range(rng.randint(1, 2)):
                     f["ctx"]["#%d" % rng.randint(1, 6)] = [rng.choice(["resume", "pause"]), rng.randint(1, 3)]
             if rng.random() < 0.2:
@@ -82,6 +106,8 @@ class C08(ProgProp):
             for (p, c, m, n) in B.violations:
                 if p == "C08":
                     out.append((c, "computation #%d (%s): %s" % (i + 1, otxt[1] if otxt[0] == "E" else "value", m)))
+            if o[0] == "E" and isinstance(o[1], A.FutureIsAlreadyComputed):
+                out.append(("internal-error", "computation #%d ended with asynq's internal FutureIsAlreadyComputed instead of an exception from a task, future, flush or context" % (i + 1)))
             st = {"events": len(B.trace), "flushes": len(B.flushes), "sim_us": real.simenv.clock.elapsed(),
                   "probes": dict(B.probes), "faults": dict(B.faults_fired), "tasks": len(B.insts), "runs": 1}
             if o[0] == "E":
